@@ -360,10 +360,19 @@ func ruleErrProp(c *Ctx) []Obligation {
 					o.add(Violated, fname(f), construct, ci.Pos(), true, "error result of a deferred call is dropped")
 					continue
 				}
+				if ok2, why2 := c.errHandledOnPaths(f, ci); ok2 {
+					o.add(Discharged, fname(f), construct, ci.Pos(), true, "%s", why2)
+					continue
+				}
 				o.add(Violated, fname(f), construct, ci.Pos(), true, "the error result is dropped (never read); errors from the writer / file system / renderer must reach the caller")
 				continue
 			}
 			ok, why := a.handled(e)
+			if !ok {
+				if ok2, why2 := c.errHandledOnPaths(f, ci); ok2 {
+					ok, why = true, why2
+				}
+			}
 			o.req(ok, fname(f), construct, ci.Pos(), "%s", why)
 		}
 	}
